@@ -62,6 +62,28 @@ def r1(ctx):
             continue
         if any(x in b.reachable(te[0][1], stop=nx) for x in errs["AddrInUse"]):
             cnt_true_to_inuse += 1
+    if cnt_true_to_inuse < 3:
+        # accepted idiom: bindings_on_port(..).any(|(existing, _)| a || b || c) followed by `if conflict { return Err(AddrInUse) }`
+        for bb, t in b.calls(re.compile(r"Iterator>::any$|^std::iter::Iterator::any$")):
+            if not (bop and bb in b.reachable(bop[0][0])):
+                continue
+            te_any = []
+            for sbb, te, fe, o in guards_on(b, lambda o: o["k"] == "call" and o["bb"] == bb):
+                te_any += te
+            leads = bool(te_any) and any(x in b.reachable(te_any[0][1]) for x in errs["AddrInUse"])
+            for cid in closure_args(b, t):
+                cb = ctx.w.bodies.get(cid)
+                if not cb or not leads:
+                    continue
+                d = 0
+                for sbb, te, fe, o in guards_on(cb, lambda o: o["k"] == "call" and (o["t"]["f"].endswith("IpAddr::is_unspecified") or o["t"]["f"].endswith("PartialEq>::eq"))):
+                    if any((op_const(s2["r"].get("o")) or {}).get("v") == 1 and s2["p"]["l"] == 0 for x in cb.reachable(te[0][1]) for s2 in cb.stmts(x)):
+                        d += 1
+                d += sum(1 for x, tt in cb.calls(re.compile(r"IpAddr::is_unspecified$|PartialEq>::eq$")) if tt["d"]["l"] == 0 and not tt["d"].get("p"))
+                eqs = [tt for x, tt in cb.calls(re.compile(r"IpAddr as std::cmp::PartialEq>::eq$"))]
+                uns = [tt for x, tt in cb.calls(re.compile(r"^std::net::IpAddr::is_unspecified$"))]
+                cnt_true_to_inuse = max(cnt_true_to_inuse, d)
+                three = len(eqs) >= 1 and len(uns) >= 2
     ctx.inst(R, "bind:three-way-conflict", three and cnt_true_to_inuse >= 3, b.span,
              "conflict = same address, existing wildcard, or new wildcard (each leads to AddrInUse)" if three and cnt_true_to_inuse >= 3 else
              f"the conflict test no longer has three AddrInUse conditions (found {cnt_true_to_inuse}): a wildcard-vs-specific or same-address clash is accepted")
